@@ -266,8 +266,26 @@ impl Monitor for M {
                 }
             }
             let e = ref_encode(&m);
-            payloads.push(e.bytes[e.payload_start..].to_vec());
-            bytes.extend_from_slice(&e.bytes);
+            let mut mb = e.bytes.clone();
+            // 1 in 8 messages carries an id field as real ECUs write them (bytes that are not UTF-8, an
+            // early NUL): the decoded id, and hence the bucket it is counted under, is the clean prefix
+            if ctx.rng.chance(1, 8) {
+                let raw: [u8; 4] = *ctx.rng.pick(&[[b'A', b'P', 0xFF, 0], [b'E', b'C', 0xDC, b'1'], [b'Z', b'Z', 0xC3, 0], [0, b'B', b'C', b'D'], [b'A', 0, b'C', b'D'], [0xE4, b'B', b'C', 0], [b'A', b'B', b' ', 0xFE]]);
+                let which = *ctx.rng.pick(&["storage.ecu", "std.ecu", "std.ecu", "ext.apid", "ext.ctid"]);
+                if let Some(f) = e.find(which) {
+                    mb[f.start..f.end].copy_from_slice(&raw);
+                    let clean = String::from_utf8_lossy(crate::refcodec::field_value(&raw)).into_owned();
+                    match which {
+                        "storage.ecu" => m.storage_header.as_mut().unwrap().ecu_id = clean,
+                        "std.ecu" => m.header.ecu_id = Some(clean),
+                        "ext.apid" => m.extended_header.as_mut().unwrap().application_id = clean,
+                        _ => m.extended_header.as_mut().unwrap().context_id = clean,
+                    }
+                    ctx.obs("messages.with_dialect_id");
+                }
+            }
+            payloads.push(mb[e.payload_start..].to_vec());
+            bytes.extend_from_slice(&mb);
             bounds.push(bytes.len());
             msgs.push(m);
         }
@@ -438,8 +456,8 @@ impl Monitor for M {
 
     fn describe(&self, ctx: &Ctx) -> J {
         super::describe(
-            "streams of 0-400 reference-encoded messages (10 % empty, 10 % long), ids from pools of 1/2/3/8 (collisions, incl. the empty id and the literal 'NONE') or unconstrained, 2/3 of the non-control messages forced to log type over all 16 level codes, 1/4 of the streams all-verbose, both storage modes, fed to collect_statistics through a scripted source with a random fragmentation family; a wrapping collector logs every visit. Each stream is then split at 0-7 random message boundaries (empty parts allowed) and the parts' statistics merged as left fold, right fold, balanced tree and random permutation/association. distinct = (storage mode, id-pool size, buckets hit, number of parts, merge shape, stream length bucket); non-trivial = non-empty stream",
-            &["vector order in the result is unspecified and not compared; tables are compared as maps, a duplicated id is a violation", "contained_non_verbose is true iff some message lacks (extended header and verbose flag)"],
+            "streams of 0-400 reference-encoded messages (10 % empty, 10 % long), ids from pools of 1/2/3/8/12 (collisions, incl. the empty id, the literal 'NONE', ids differing only in trailing blanks, the storage-header pattern) or unconstrained, 1 in 8 messages with a dialect id field (non-UTF-8 bytes or an early NUL: counted under the clean prefix), 1 in 60 streams with a message of one of the 16 largest declarable lengths, 1 in 6 readers built with DltMessageReader::new, 2/3 of the non-control messages forced to log type over all 16 level codes, 1/4 of the streams all-verbose, both storage modes, fed to collect_statistics through a scripted source with a random fragmentation family; a wrapping collector logs every visit. Each stream is then split at 0-7 random message boundaries (empty parts allowed) and the parts' statistics merged as left fold, right fold, balanced tree and random permutation/association. distinct = (storage mode, id-pool size, buckets hit, number of parts, merge shape, stream length bucket); non-trivial = non-empty stream",
+            &["the id a message is counted under is the clean prefix of its 4-byte field (C19 rule): bytes before the first NUL, cut at the first invalid UTF-8 sequence", "vector order in the result is unspecified and not compared; tables are compared as maps, a duplicated id is a violation", "contained_non_verbose is true iff some message lacks (extended header and verbose flag)"],
             &[
                 ("visits.ok", super::scaled(ctx, 10000)),
                 ("tally.ok", super::scaled(ctx, 10000)),
